@@ -543,7 +543,7 @@ def plan(tier, seed):
             tasks.append({"task": name, "slice": i, "nslices": n})
     if tier == "quick":
         for i in range(6):
-            tasks.append({"task": "hyp", "examples": 1000})
+            tasks.append({"task": "hyp", "examples": 700})
     else:
         for i in range(16):
             tasks.append({"task": "hyp", "examples": 20000})
